@@ -272,7 +272,8 @@ def seq_rules(view, bs, coll, want_enumerate=True, label="sequence"):
         if base in ADDERS and i == 0:
             adds.append((bb, c, base))
         else:
-            if base is None or base in ("std::ops::FnMut::call_mut", "std::ops::FnOnce::call_once", "std::ops::Fn::call") or (c.fn is not None and c.krate == "deserr" and c.deserr_trait() is None):
+            if base is None or base in ("std::ops::FnMut::call_mut", "std::ops::FnOnce::call_once", "std::ops::Fn::call") or (c.fn is not None and c.krate == "deserr" and c.deserr_trait() is None) \
+                    or (c.fn is not None and c.trait and erase_generics(c.trait) == "std::iter::Iterator"):
                 out.append(_und("C06.SEQ", view, "the result collection is handed to %s, which this rule does not read" % (base or "a function value"), bb))
             else:
                 out.append(finding("C06.SEQ", view, "the result collection is modified by %s (only push/insert of the element just deserialised is allowed)" % (base or "an indirect call"), bb))
